@@ -78,7 +78,7 @@ def prog_update_X_and_G(run):
                dq_pairs_forall(run, X, G, lambda a, c, d, e: curv(a, c, d, e, eps)), P10 + ("C18",))
 
 
-def prog_update_lbfgs_matrices(force):
+def prog_update_lbfgs_matrices(force, built=False):
     def prog(run):
         it, dom = session(run, user_may_raise=False)
         it.contracts["bfgsmats.form_invMfactors"] = c_form_invMfactors
@@ -92,8 +92,17 @@ def prog_update_lbfgs_matrices(force):
         nn = run.fresh("n", I)
         run.assume(nn >= 1)
         mats = it.call(it.lookup("bfgsmats.LBFGSB_MATRICES"), [Sym(nn)], {})
+        if built:
+            # a matrix object in an arbitrary (previously built) state: every field an arbitrary array
+            for k2 in ("S", "Y", "D", "L", "W"):
+                mats.f[k2] = fresh_vec(run, "old_" + k2, "local")
+                run.ghost.setdefault("ndim", {})[mats.f[k2].ref] = 2
+            f0_, f1_ = fresh_vec(run, "old_F0", "local"), fresh_vec(run, "old_F1", "local")
+            run.ghost["ndim"][f0_.ref] = run.ghost["ndim"][f1_.ref] = 2
+            mats.f["invMfactors"] = (f0_, f1_)
+            mats.f["theta"] = Sym(run.fresh("old_theta", R))
         old_fields = dict(mats.f)
-        tag = f"bfgsmats.update_lbfgs_matrices[force={force}]"
+        tag = f"bfgsmats.update_lbfgs_matrices[force={force},{'built' if built else 'initial'}]"
         res = it.call(it.lookup("bfgsmats.update_lbfgs_matrices"),
                       [xk, gk, X, G, Sym(maxcor), mats, force], dict(eps=Sym(eps), is_check_factorization=False))
         run.oblige(tag + "::ensures::returns_the_object_passed_in", res is mats, P10, backend="structural")
@@ -120,9 +129,9 @@ def prog_update_lbfgs_matrices(force):
             c = run.heap.get(v.ref) if isinstance(v, Arr) else None
             return (isinstance(c, MatTerm) and c.kind == "T" and isinstance(c.args[0], MatTerm)
                     and c.args[0].kind == "diffstack" and snap_equal(c.args[0].args[0], dq_snapshot(run, dq)))
-        run.oblige(tag + "::ensures::S_is_transposed_diff_of_X", is_T_diff(mats.f.get("S"), X), P10 + ("C06",),
+        run.oblige(tag + "::ensures::S_is_transposed_diff_of_X", is_T_diff(mats.f.get("S"), X), P10 + ("C06", "C13"),
                    backend="structural")
-        run.oblige(tag + "::ensures::Y_is_transposed_diff_of_G", is_T_diff(mats.f.get("Y"), G), P10 + ("C06",),
+        run.oblige(tag + "::ensures::Y_is_transposed_diff_of_G", is_T_diff(mats.f.get("Y"), G), P10 + ("C06", "C13"),
                    backend="structural")
     return prog
 
@@ -225,8 +234,9 @@ def run_unit(tier="quick", keep_smt=1):
                       "bfgsmats.make_X_and_G_respect_strong_wolfe", "bfgsmats.LBFGSB_MATRICES.__init__"}
     rep.merge(run_program("BFGS[update_X_and_G]", prog_update_X_and_G, keep_smt=keep_smt))
     for force in (False, True):
-        rep.merge(run_program(f"BFGS[update_lbfgs_matrices,force={force}]", prog_update_lbfgs_matrices(force),
-                              keep_smt=keep_smt))
+        for built in (False, True):
+            rep.merge(run_program(f"BFGS[update_lbfgs_matrices,force={force},built={built}]",
+                                  prog_update_lbfgs_matrices(force, built), keep_smt=keep_smt))
     rep.merge(run_program("BFGS[make_wolfe]", prog_make_wolfe({}), keep_smt=keep_smt))
     return rep
 
